@@ -101,8 +101,49 @@ def conf_e2e_monitor(case, il, sl):
     return None
 
 
+def gen_unheard(tier, seed):
+    """Returned messages nobody listens to (no return listener / its receiver dropped) whose bodies
+    are text with multi-byte characters at every alignment around bytes 250..260, 510..514, 1022..1026
+    (whatever the client does with a discarded message - log it, preview it - it must not disturb the
+    connection), followed by an ack to a live confirm listener and a returned message to a new one."""
+    rng = Rng(seed + 1317)
+    cases = []
+    n = 0
+    texts = []
+    for base in (250, 508, 1020):
+        for k in range(0, 10):
+            for chx in ("\u00e9", "\u20ac", "\U0001F600"):
+                texts.append(("a" * (base + k) + chx * 6).encode("utf-8"))
+    texts += [b"\xff" * 300, b"\xc3" * 257, ("\u00e9" * 200).encode("utf-8")]
+    if tier == "quick":
+        texts = texts[::3] + texts[-3:]
+    for st in ("none", "dropped"):
+        for data in texts:
+            g = mg.Gen(rng, chmax=2, bound=4, via_stream=0.0)
+            h = g.open_channel(1); g.bind_opened(h, 1)
+            if st == "dropped":
+                l = g.new_listener()
+                g.op("send %s setret %s" % (h, l)); g.op("ev 1"); g.op("drop-lst " + l)
+            lc = g.new_listener()
+            g.op("send %s setconf %s" % (h, lc)); g.op("ev 1")
+            g.feed([mg.ret(1, 312, "NO_ROUTE", "ex", "rk"), mg.header(1, len(data)), mg.body(1, data)])
+            g.feed([mg.ack(1, 1, False)])
+            l2 = g.new_listener()
+            g.op("send %s setret %s" % (h, l2)); g.op("ev 1")
+            g.feed([mg.ret(1, 313, "NO_CONSUMERS", "ex", "rk"), mg.header(1, 2), mg.body(1, b"ok")])
+            g.finish()
+            n += 1
+            cases.append(g.case("u%d" % n))
+    return cases
+
+
 def suites(tier, seed):
-    return [Suite("listener-mid-content", "machine", lambda: mg.listener_mid_content_cases(Rng(seed + 35)), monitor=monitor, nontrivial=lambda c, il: True, canon=mg.canon_nondet, candidate_ok=mg.candidate_ok, exhaustive=True,
+    return [Suite("unheard-returns", "machine", lambda: gen_unheard(tier, seed), monitor=monitor, nontrivial=lambda c, il: True, canon=mg.canon_nondet, candidate_ok=mg.candidate_ok, shards=4,
+                  rule="returned messages with nobody listening (no return listener / receiver dropped) whose bodies are UTF-8 text with 2-, 3- and 4-byte characters at every alignment around bytes 250-260, 508-518, 1020-1030, and invalid UTF-8: discarded without disturbing the connection - the ack and the returned message that follow reach their listeners"),
+            Suite("id-lifecycles-with-listeners", "machine", lambda: mg.id_lifecycle_cases(Rng(seed + 5), 2, 5, listeners=True) + mg.id_lifecycle_cases(Rng(seed + 6), 3, 5 if tier == "quick" else 6, stride=19 if tier == "quick" else 29, offset=seed, prefix="j", listeners=True),
+                  monitor=monitor, nontrivial=lambda c, il: True, canon=mg.canon_nondet, candidate_ok=mg.candidate_ok, shards=4,
+                  rule="channel_max 2: EVERY sequence of 5 operations from {open automatic, open id 1, open id 2, client closes 1 / 2, server closes 1 / 2}; channel_max 3: sampled; then a confirm listener and a return listener on every open channel, an ack and a returned message on each: every event reaches the listener of the channel it was sent on (a slot is never replaced while its channel is live)"),
+            Suite("listener-mid-content", "machine", lambda: mg.listener_mid_content_cases(Rng(seed + 35)), monitor=monitor, nontrivial=lambda c, il: True, canon=mg.canon_nondet, candidate_ok=mg.candidate_ok, exhaustive=True,
                   rule="a return / confirm / blocked listener registered or replaced between the method and the header, or between the header and the body, of a returned message / delivery / get answer on the same channel: the message completes and reaches the listener that is current when it completes"),
             Suite("confirm-backlog-e2e", "confe2e", lambda: [Case("e%d" % n, ["run %d" % n], {"keep_prefix": 0}) for n in ([300, 6000] if tier == "quick" else [1, 300, 4096, 4097, 6000, 20000, 70000])],
                   monitor=conf_e2e_monitor, nontrivial=lambda c, il: True, compare=False, shards=4, timeout=300,
